@@ -24,6 +24,7 @@ import M4riProofs.Top
 import M4riProofs.GenTie
 import M4riProofs.GenTieRec
 import M4riProofs.GenTieGlue
+import M4riProofs.GenTieClose
 namespace M4ri.Props.C04
 open M4ri M4ri.BMat
 
@@ -117,5 +118,17 @@ theorem upper_right_solves {U B : BMat} (hUr : U.nrows = B.ncols) (hUc : U.ncols
 /-! ### tie to the C text: `mzd_trtri_upper` (64-bit regime test, SSE2 split, three windows, the two translated TRSM routines, two recursive
     calls), `_mzd_pluq` and `_mzd_solve_left` are generated by vlib/ctrans.py on every check and proved equal to the model (GenTieGlue.lean) -/
 #check @M4ri.GenTieGlue.trtriUpperRec_step
+
+
+/-! ### THE RECURSION CLOSED on the C text: `cTrsmX n` is the generated C function `_mzd_trsm_*` with its recursive-call parameter bound to ITSELF, `n`
+    levels deep; by induction on `n` (one-step ties + callee congruence) it equals the substitution form for EVERY depth, on whole matrices
+    and on windows written back (GenTieClose.lean) -/
+#check @M4ri.GenTieClose.cTrsmUR_correct
+#check @M4ri.GenTieClose.cTrsmLR_correct
+#check @M4ri.GenTieClose.cTrsmLL_correct
+#check @M4ri.GenTieClose.cTrsmUL_correct
+#check @M4ri.GenTieClose.cTrsmUR_window
+#check @M4ri.GenTieClose.cTrsmLL_window
+#check @M4ri.GenTieClose.trsmUpperRightRec_callee_congr
 
 end M4ri.Props.C04
